@@ -17,9 +17,12 @@
           non-garbage datagram from the new address was delivered since the last probe, the new
           address is not a FORMER client address once the server has been on a later one (every
           packet from there carries a lower number than one already processed), afterwards
-          validated = 0, challenge and prev_path present, the timer at now + 3 * PTO (between
-          the new and the old PTO), and [last_valid] is not clobbered when the old path was
-          itself unvalidated;
+          validated = 0, challenge and prev_path present, the timer at now + 3 * PTO, and
+          [last_valid] is not clobbered when the old path was itself unvalidated. The PTO pair
+          [migrate] reads is not in the trace (ACKs in the triggering packet update the RTT
+          estimate before it is read): the deadline must lie between 1.5 x the smaller and 3 x
+          the larger of the PTO probed before and after, or else below 3 x the largest PTO any
+          RTT sample taken before [now] can produce (5 x now + 1 s);
         - validation (C15_validation_only_by): a datagram from the path's OWN address was delivered
           since the last probe; afterwards no challenge, no timer;
         - fallback (C15_fallback_at_deadline): handle_timeout ran at or after the deadline and the
@@ -81,7 +84,9 @@ Section Mon.
   Definition after_mig_ok (c : cst) (r : list Z) (y : Z) : bool :=
     let t := rtime r in let pv := pf r 22 in let pto := pf r 12 in
     (pf r 15 =? 1) && (pf r 14 =? 1) && (0 <=? pv)
-    && (3 * Z.min pto (c_pto c) <=? pv - t + 3) && (pv - t <=? 3 * Z.max pto (c_pto c) + 3)
+    && (3 * Z.min pto (c_pto c) <=? 2 * (pv - t) + 6)
+    && ((pv - t <=? 3 * Z.max pto (c_pto c) + 3)
+        || (pv - t <=? 3 * (Z.max 333000 t + 4 * Z.max 166500 t + 1000000)))
     && (pf r 3 <=? bytes_from (c_rx c) y).
 
   Definition mig_ok (s : st) (c : cst) (y : Z) : bool :=
